@@ -158,6 +158,27 @@ EXPRS = [
     "np.array([True, False]).astype(np.int8)",
     "np.array([1, 2], dtype=np.uint8) ** 2",
     "2 ** np.uint64(5)",
+    # ---- added with the round-2/3 harnesses: histogram, fromiter, ravel orders, method fallback of np.sum, union1d
+    "np.histogram(np.array([1,2,2,5]), bins=2)",
+    "np.histogram(np.array([1,2,2,5]), bins=3, range=(0,4))",
+    "np.histogram(np.array([1,2,2,5]), bins=3, range=(0,4), density=True)",
+    "np.histogram(np.array([3,3]), bins=2, density=True)",
+    "np.histogram(np.array([1,2,2,5]), bins=2, weights=np.array([1,2,1,3]))",
+    "np.histogram(np.array([1,2,2,5]), bins=2, weights=np.array([1,2,1,3]), density=True, range=(2,4))",
+    "np.histogram(np.array([], dtype=int), bins=2)",
+    "np.histogram(np.array([0,1,2,3,4,5,6]), bins=3, range=(1,6), density=True)",
+    "np.fromiter((x for x in [1, 2, 300]), dtype=np.int16, count=3)",
+    "np.fromiter(iter([np.uint8(3), np.int16(300)]), dtype=np.uint8, count=2)",
+    "np.fromiter(iter([]), dtype=np.float64, count=0)",
+    "np.arange(6).reshape(2, 3).T.ravel()",
+    "np.arange(6).reshape(2, 3).T.ravel(order='K')",
+    "np.arange(6).reshape(2, 3).T.ravel(order='F')",
+    "np.arange(6).reshape(2, 3).ravel(order='K')",
+    "np.arange(6).reshape(2, 3).ravel(order='F')",
+    "np.union1d(np.array([3, 1]), np.array([2, 3]))",
+    "np.array([np.uint8(3), np.int16(300)])",
+    "np.array([True, np.int64(2)])",
+    "np.concatenate([np.array([1], dtype=np.int8), np.array([300], dtype=np.int16)])",
 ]
 
 RUNNER = r'''
